@@ -16,8 +16,8 @@ def run(tier, replay):
     sd = vlib.scratch_dir("c05")
     try:
         th = tier == "thorough"
-        m = ec.run_profile(chk, binp, "c05", 320 if not th else 6000, sd, thorough=th)
-        mt = ec.run_profile(chk, tb, "c05t", 1600 if not th else 24000, sd, env=TSAN, label="c05t")
+        m = ec.run_profile(chk, binp, "c05", 320 if not th else 1500, sd, thorough=th)
+        mt = ec.run_profile(chk, tb, "c05t", 1600 if not th else 8000, sd, env=TSAN, label="c05t")
         ec.fold(chk, m, KEYS)
         chk.cov["threaded_runs_tsan"] = int(mt.get("runs", 0))
         chk.cov["threaded_cancelled_builds"] = int(mt.get("cancelled_builds", 0))
